@@ -23,6 +23,9 @@ pub enum Case15 {
     /// One funding transaction with `n` outputs, then `n` single-input spenders spread over
     /// `blocks` blocks: more than 10 000 transactions on the best chain.
     Big { n: u16, blocks: u8, upgrade: bool },
+    /// Eager mode through the real heartbeat: the percentiles stored at the end of a heartbeat
+    /// that ran to completion follow the observation rule.
+    Eager(crate::hb::Scenario),
 }
 
 struct Obs {
@@ -160,6 +163,83 @@ fn run_big(n: u16, blocks: u8, upgrade: bool, out: &mut Outcome) {
     }
 }
 
+fn run_eager(sc: &crate::hb::Scenario, out: &mut Outcome) {
+    use crate::hb::{hb_cfg, Ev, HbWorld};
+    let cfg = hb_cfg(sc.threshold, sc.pool.clone());
+    let mut sut_cfg = crate::sut::SutConfig::new(cfg.net, cfg.threshold as u32);
+    sut_cfg.lazy_fees = Flag::Disabled;
+    let mut hw = HbWorld::new(&cfg, sut_cfg);
+    let mut last_tip: Option<usize> = None;
+    let mut last_value: Option<Vec<u64>> = None;
+    for (i, ev) in sc.evs.iter().enumerate() {
+        match ev {
+            Ev::Mine(m) => {
+                hw.mine(m.parent, m.prefer_tip, &m.coinbase, &m.txs, m.dt);
+            }
+            Ev::Plan(p) => hw.plan(p.clone()),
+            Ev::Upgrade => {
+                if let Err(p) = hw.upgrade(None) {
+                    out.fail(format!("event {i}: upgrade trapped: {p}"));
+                    return;
+                }
+            }
+            Ev::Beat(b) => {
+                let anchor_before = hw.w.model.anchor;
+                let was_ingesting = sut::is_ingesting();
+                let info = hw.heartbeat(*b);
+                if let Some(p) = &info.trapped {
+                    out.fail(format!("event {i}: heartbeat trapped: {p}"));
+                    return;
+                }
+                if step_errors(&info.step, out) {
+                    return;
+                }
+                // the heartbeat reaches the fee computation only if it neither ingested nor fetched
+                let ran_to_end = !was_ingesting && !info.paused_after && hw.w.model.anchor == anchor_before && info.requests_issued == 0 && info.step.advances.is_empty();
+                if !ran_to_end {
+                    continue;
+                }
+                out.checks += 1;
+                let best = hw.w.model.best_chain();
+                let tip = *best.last().unwrap();
+                if last_tip != Some(tip) {
+                    let rates = hw.w.model.fee_rates_recent_first(&best, 10_000);
+                    if !rates.is_empty() {
+                        last_value = Some(percentiles(rates.clone()));
+                        let mut r = rates;
+                        r.sort();
+                        r.dedup();
+                        if r.len() >= 2 {
+                            out.class("eager_new_tip_ge_2_rates");
+                            out.nontrivial(shape(&hw.w, &[crate::engine::fnv(format!("{:?}", r).as_bytes())]));
+                        }
+                    }
+                    last_tip = Some(tip);
+                }
+                let stored = ic_btc_canister::with_state(|s| s.fee_percentiles_cache.as_ref().map(|c| (c.tip_block_hash.to_vec(), c.fee_percentiles.clone())));
+                match (&stored, &last_value) {
+                    (None, None) => {}
+                    (Some((_, v)), Some(want)) => {
+                        if v != want {
+                            out.fail(format!(
+                                "event {i}: eager mode: the percentiles stored after the heartbeat (min/median/max {:?}/{:?}/{:?}) are not those of the best chain when its tip at height {} was first observed ({:?}/{:?}/{:?})",
+                                v.first(), v.get(50), v.last(), hw.w.model.blocks[tip].height, want.first(), want.get(50), want.last()
+                            ));
+                        }
+                    }
+                    (Some((_, v)), None) => {
+                        if !v.is_empty() {
+                            out.fail(format!("event {i}: eager mode: percentiles are stored although no fee-paying transaction was ever on the best chain"));
+                        }
+                    }
+                    (None, Some(_)) => out.fail(format!("event {i}: eager mode: no percentiles stored after a heartbeat that ran to completion on a chain with fee-paying transactions")),
+                }
+            }
+        }
+    }
+    out.class("eager_heartbeat_case");
+}
+
 impl Property for C15 {
     type Case = Case15;
     fn id(&self) -> &'static str {
@@ -174,6 +254,7 @@ impl Property for C15 {
             1500 => (history_strategy(ops, 4, true, true), any::<bool>(), any::<u32>())
                 .prop_map(|(hist, lazy, observe_mask)| Case15::Hist { hist, lazy, observe_mask }),
             big_w => (10_001u16..10_400, 1u8..6, any::<bool>()).prop_map(|(n, blocks, upgrade)| Case15::Big { n, blocks, upgrade }),
+            300 => crate::hb::scenario_strategy(ops + 10, 4, false, true, false).prop_map(Case15::Eager),
         ]
         .boxed()
     }
@@ -184,7 +265,7 @@ impl Property for C15 {
         }
     }
     fn rule(&self) -> String {
-        "Histories with fee-paying legacy and segwit transactions (fee 0..100%, forks with different transactions, reorgs, shared transactions, upgrades, threshold changes), eager (heartbeat-style recomputation is emulated by observing at every step) and lazy mode, observed at a generated subset of steps. Observation-time model: same tip -> same value; newly observed tip -> the 101 nearest-rank values of the model's rate list (fee from the naive ledger, vsize = ceil((3*stripped+total)/4), rate = floor(1000*fee/vsize), best chain tip->anchor, block order, first 10 000), or the previous value if that list is empty; exactly 0 or 101 non-decreasing values; after an upgrade the recomputed value for a new tip equals the model's. A few cases with 10 001..10 400 transactions. Non-trivial: an observation of a new tip with >= 2 distinct fee rates, or a recomputation after an upgrade, or > 10 000 transactions; distinct = (tree shape, rate multiset hash).".into()
+        "Histories with fee-paying legacy and segwit transactions (fee 0..100%, forks with different transactions, reorgs, shared transactions, upgrades, threshold changes), eager (heartbeat-style recomputation is emulated by observing at every step) and lazy mode, observed at a generated subset of steps. Observation-time model: same tip -> same value; newly observed tip -> the 101 nearest-rank values of the model's rate list (fee from the naive ledger, vsize = ceil((3*stripped+total)/4), rate = floor(1000*fee/vsize), best chain tip->anchor, block order, first 10 000), or the previous value if that list is empty; exactly 0 or 101 non-decreasing values; after an upgrade the recomputed value for a new tip equals the model's. A few cases with 10 001..10 400 transactions. One case in six runs in eager mode through the real heartbeat (request-driven source, upgrades): after every heartbeat that ran to completion the stored percentiles must follow the same observation rule. Non-trivial: an observation of a new tip with >= 2 distinct fee rates, or a recomputation after an upgrade, or > 10 000 transactions; distinct = (tree shape, rate multiset hash).".into()
     }
     fn assumptions(&self) -> Vec<String> {
         vec!["the anchor block counts among 'the best chain's unstable blocks' (it is kept in the unstable tree)".into()]
@@ -192,11 +273,12 @@ impl Property for C15 {
     fn brief(&self, case: &Case15) -> serde_json::Value {
         match case {
             Case15::Hist { hist, lazy, observe_mask } => serde_json::json!({"lazy": lazy, "observe_mask": observe_mask, "history": history_brief(hist)}),
+            Case15::Eager(sc) => crate::hb::scenario_brief(sc),
             other => serde_json::to_value(other).unwrap(),
         }
     }
     fn required_classes(&self, tier: Tier) -> Vec<&'static str> {
-        let mut v = vec!["ge_2_distinct_rates", "recomputed_after_upgrade", "same_tip_same_value", "new_tip_without_transactions_keeps_previous", "observed_after_reorg"];
+        let mut v = vec!["ge_2_distinct_rates", "recomputed_after_upgrade", "same_tip_same_value", "new_tip_without_transactions_keeps_previous", "observed_after_reorg", "eager_heartbeat_case", "eager_new_tip_ge_2_rates"];
         if tier == Tier::Thorough {
             v.push("more_than_10000_transactions");
         }
@@ -209,6 +291,7 @@ impl Property for C15 {
         let mut out = Outcome::default();
         match case {
             Case15::Big { n, blocks, upgrade } => run_big(*n, *blocks, *upgrade, &mut out),
+            Case15::Eager(sc) => run_eager(sc, &mut out),
             Case15::Hist { hist, lazy, observe_mask } => {
                 let mut sc = crate::sut::SutConfig::new(hist.cfg.net, hist.cfg.threshold as u32);
                 sc.lazy_fees = if *lazy { Flag::Enabled } else { Flag::Disabled };
